@@ -19,14 +19,14 @@ RULE = ('Cases: paired FASTQ read sets over a 2k..6k-base genome (read lengths f
         'equals the model sequence of passing windows in read order (Python ntHash); no Bloom false negative; counts '
         'increase by one per Bloom hit; a k-mer is accepted exactly when the count reaches C (C=2: from the second sighting '
         'on).  An extra dictionary entry is excused only by an observed Bloom false positive or an observed 64-bit hash '
-        'collision; a missing entry never.  Builds of 2..20 read-pair samples with --threads 1..8 are compared column by column with the per-sample model.  Non-trivial: some k-mer is below and some at/above the count, or a quality '
+        'collision; a missing entry never.  Builds of 2..20 read-pair samples with --threads 1..8 are compared column by column with the per-sample model.  Fault injection on the input: a read file with one malformed record (quality string of another length, missing + line) or a gzip stream cut in its middle is either refused (non-zero exit, no .skf) or loses no k-mer that reaches the count among the well-formed records.  Non-trivial: some k-mer is below and some at/above the count, or a quality '
         'equals the threshold; distinct = distinct (parameters, reads).')
 ASSUMPTIONS = ['the exact counter in this file states the specification; quality = ASCII - 33',
                'hooked runs use --threads 1 so that the event order is the read order']
 REQUIRED = {t: ['rule:none', 'rule:middle', 'rule:strict', 'quality_equal_threshold', 'probes_at_C', 'probes_below_C',
                 'probes_above_C', 'filter_calls_monitored', 'accepts_monitored', 'mincount:1', 'mincount:2', 'mincount:3+',
                 'kmers_included', 'kmers_excluded_by_count'] for t in ('quick', 'thorough')}
-REQUIRED['quick'] = REQUIRED['quick'] + ['large_input_distinct_kmers', 'multi_sample_builds', 'multi_sample_parallel_builds']
+REQUIRED['quick'] = REQUIRED['quick'] + ['large_input_distinct_kmers', 'multi_sample_builds', 'multi_sample_parallel_builds', 'damaged_input_refused']
 REQUIRED['thorough'] = REQUIRED['quick']
 RULES = {'none': 'no-filter', 'middle': 'middle', 'strict': 'strict'}
 
@@ -51,6 +51,10 @@ def plan(tier, seed, rng, scale):
                       'seed': rng.getrandbits(32), 'large': 250000})
     for i, d in enumerate(descs):
         d['chk'] = (i % 8 == 0) and not d.get('large')
+    for i in range(int((60 if tier == 'quick' else 600) * scale)):
+        descs.append({'k': rng.choice([9, 15, 21, 31, 33]), 'rc': rng.random() < 0.7, 'rule': rng.choice(list(RULES)),
+                      'minc': rng.randint(1, 4), 'minq': rng.choice([0, 2, 20]), 'seed': rng.getrandbits(32),
+                      'damage': ['length-mismatch', 'missing-plus', 'cut-gzip'][i % 3], 'chk': False})
     for i in range(int((40 if tier == 'quick' else 400) * scale)):
         descs.append({'k': rng.choice([9, 15, 21, 31, 33]), 'rc': rng.random() < 0.7, 'rule': rng.choice(list(RULES)),
                       'minc': rng.randint(1, 5), 'minq': rng.choice([0, 2, 20]), 'seed': rng.getrandbits(32),
@@ -230,6 +234,73 @@ def monitor(res, ev, seq_model, minc, sig, detail):
     return fp
 
 
+def run_damaged(desc, ctx, res):
+    """A read file with one malformed record (or a cut gzip stream) in its middle.  The build either refuses (non-zero exit,
+    no .skf) or loses no k-mer that reaches the count among the well-formed records: ending the counting silently at the
+    damage is data loss."""
+    import gzip
+    k, rcmode, rule, minc, minq = desc['k'], desc['rc'], desc['rule'], desc['minc'], desc['minq']
+    rng = random.Random(desc['seed'])
+    reads, probes = gen_reads(rng, desc)
+    which = rng.randrange(2)
+    kind = desc['damage']
+    # probes that sit behind the damage: minc copies of one k-mer, all in the damaged file after the bad record
+    w = G.rseq(rng, k)
+    tail = [(w if (not rcmode or rng.random() < 0.5) else M.rc(w), chr(33 + 41) * k) for _ in range(minc)]
+    head = reads[which]
+    pos = rng.randint(1, len(head))
+    good = head[:pos] + tail + head[pos:]
+    bad_idx = pos - 1                       # the record just before the probes
+    if kind in ('length-mismatch', 'missing-plus'):
+        recs = [[('@r%d' % i), s_, '+', q_] for i, (s_, q_) in enumerate(good)]
+        if kind == 'length-mismatch':
+            recs[bad_idx][3] = recs[bad_idx][3][:-1] if len(recs[bad_idx][3]) > 1 else recs[bad_idx][3] + 'I'
+        else:
+            recs[bad_idx][2] = ''
+        data = ''.join('\n'.join(r) + '\n' for r in recs).encode()
+        wellformed = good[:bad_idx] + good[bad_idx + 1:]
+        name = 'd%d.fastq' % which
+    else:
+        raw = gzip.compress(fastq_text(good).encode())
+        data = raw[:max(20, len(raw) * rng.randint(30, 80) // 100)]
+        wellformed = None                      # nothing can be said about what was readable: only a refusal is acceptable
+        name = 'd%d.fastq.gz' % which
+    ctx.write(name, data)
+    other = 'o%d.fastq' % (1 - which)
+    ctx.write(other, fastq_text(reads[1 - which]))
+    pair = [ctx.path(name), ctx.path(other)] if which == 0 else [ctx.path(other), ctx.path(name)]
+    ctx.write('dlist', 'D\t%s\t%s\n' % tuple(pair))
+    if os.path.exists(ctx.path('dmg.skf')):
+        os.remove(ctx.path('dmg.skf'))
+    p = G.ska_build(ctx, ctx.path('dmg'), ['-f', ctx.path('dlist'), '--min-count', minc, '--min-qual', minq, '--qual-filter', RULES[rule]], k, rcmode)
+    res.evals += 1
+    detail = {'k': k, 'rc': rcmode, 'rule': rule, 'min_count': minc, 'min_qual': minq, 'damage': kind, 'seed': desc['seed']}
+    written = os.path.exists(ctx.path('dmg.skf'))
+    if p.returncode != 0:
+        if written:
+            res.violate('C12:damaged:%s:artefact' % kind, 'build refused a damaged read file (exit %d) but left an .skf behind' % p.returncode, detail)
+        else:
+            res.count('damaged_input_refused')
+            res.nontrivial.append(fingerprint(['damaged', desc['seed']]))
+        return
+    if wellformed is None:
+        res.violate('C12:damaged:%s:accepted' % kind, 'k=%d min-count=%d: a read file cut in the middle of its gzip stream was accepted with exit 0' % (k, minc), detail)
+        return
+    pw = passing_windows(wellformed + reads[1 - which], k, rcmode, minq, rule)
+    counts = {}
+    for x in pw:
+        counts[x] = counts.get(x, 0) + 1
+    exp = dictionary(counts, k, rcmode, minc)
+    hdr, T = G.nk(ctx, ctx.path('dmg.skf'))
+    lost = [a for a in exp if a not in T]
+    if lost:
+        res.violate('C12:damaged:%s:lost' % kind, 'k=%d min-count=%d rule=%s: a read file with one malformed record (%s) was accepted with exit 0 and %d of %d '
+                    'k-mers that reach the count among the well-formed records are missing, e.g. %s' % (k, minc, rule, kind, len(lost), len(exp), lost[:2]), detail)
+    else:
+        res.count('damaged_input_accepted_without_loss')
+        res.nontrivial.append(fingerprint(['damaged', desc['seed']]))
+
+
 def run_multi(desc, ctx, res):
     """Several read-pair samples in one build (parallel for >= 10 samples and > 1 thread): every column must equal the
     dictionary of its own reads; samples share most of their k-mers, so state leaking from one sample's filter into the
@@ -299,6 +370,9 @@ def run_case(desc, ctx):
     res = Result()
     if desc.get('multi'):
         run_multi(desc, ctx, res)
+        return res
+    if desc.get('damage'):
+        run_damaged(desc, ctx, res)
         return res
     k, rcmode, rule, minc, minq = desc['k'], desc['rc'], desc['rule'], desc['minc'], desc['minq']
     rng = random.Random(desc['seed'])
